@@ -9,6 +9,8 @@ compared after EVERY action; the high-level interaction classes (rigid body / Co
 driven by seeded random histories with the law evaluated on their own fields."""
 from __future__ import annotations
 
+import os
+
 import numpy as np
 
 from . import core, shim, tlc
@@ -241,10 +243,45 @@ def highlevel(chk, rng, quick):
                 chk.violation({"kind": "pi_highlevel", "dim": D}, "interaction holds a writable view of the flow velocity")
 
 
+def apalache_induction(chk):
+    """unbounded histories / unbounded integers: IndInv is inductive (Apalache, SMT)."""
+    import shutil
+    import subprocess
+    import tempfile
+
+    d = tempfile.mkdtemp(prefix="apa_")
+    try:
+        shutil.copy(os.path.join(tlc.SPEC_DIR, "CouplingInd.tla"), d)
+
+        def apa(args):
+            p = subprocess.run(["apalache-mc", "check", *args, f"--out-dir={d}/out", "CouplingInd.tla"], cwd=d, capture_output=True, text=True, timeout=600)
+            return "EXITCODE: OK" in p.stdout, ("EXITCODE: ERROR (12)" in p.stdout or "Found a violation" in p.stdout or "violat" in p.stdout), p.stdout[-600:]
+
+        runs = [("init implies invariant", ["--init=Init", "--inv=IndInv", "--length=0"], True),
+                ("inductive step", ["--init=IndInit", "--inv=IndInv", "--length=1"], True),
+                ("control: integrate-on-evaluate is not inductive", ["--init=IndInit", "--next=NextBad", "--inv=IndInv", "--length=1"], False)]
+        obligations = 0
+        for name, args, want_ok in runs:
+            ok, viol, tail = apa(args)
+            chk.tlc_runs.append({"name": "apalache " + name, "ok": ok, "violation": viol})
+            if want_ok and not ok:
+                if viol:
+                    chk.violation({"kind": "model", "run": "apalache " + name}, f"Apalache refutes the inductive invariant of the coupling law ({name})", {"tail": tail})
+                else:
+                    raise core.MachineryError(f"apalache {name}: {tail}")
+            if not want_ok and ok:
+                raise core.MachineryError("apalache negative control accepted: the inductive check is vacuous")
+            obligations += 1
+        chk.extra["apalache_obligations_discharged"] = obligations
+    finally:
+        shutil.rmtree(d, ignore_errors=True)
+
+
 def run(chk: core.Check):
     shim.install()
     quick = chk.tier == "quick"
     rng = np.random.default_rng(chk.seed)
+    apalache_induction(chk)
     raw = {"Vals": "{-1, 0, 2}", "Dts": "{1, 2}"}
     base = {"Bodies": {1, 2}, "K": KK, "C": CC, "ResetMode": False, "MaxSteps": 5 if quick else 6, "IntegrateOnEvaluate": False,
             "KeepTrail": False}
@@ -292,8 +329,9 @@ def run(chk: core.Check):
         "replay checks every marker/component of the real arrays against it",
         "replay uses markers on cell centres, a uniform flow velocity, integer stiffness/damping/dt: every operation of the chain is exact "
         "in floating point, so states are compared with equality after every action",
-        "histories are exhaustive to depth 5-6 (two bodies) / 7-9 (one body) in the model, seeded random to depth 14 in the replay; "
-        "unbounded histories follow from the inductive form of IntegralLaw/PILaw (not machine-checked here)",
+        "histories are exhaustive to depth 5-6 (two bodies) / 7-9 (one body) in TLC, seeded random to depth 12 in the replay; "
+        "unbounded histories and unbounded integers: the same laws are an inductive invariant of CouplingInd.tla, discharged by Apalache "
+        "(init, step, and a negative control that must fail)",
     ]
     return ("case = one behaviour (sequence of public calls on one or two bodies) replayed per dimension/precision/mode with the state "
             "compared after every call; plus random histories on the rigid-body and Cosserat-rod interaction classes")
